@@ -1,6 +1,7 @@
 package main
 
 import (
+	"strconv"
 	"fmt"
 	"strings"
 )
@@ -57,6 +58,15 @@ func checkC15(ctx *Ctx) {
 			switch {
 			case r.Chance(12):
 				n = r.Intn(6)
+			case cmd == "sort" && r.Chance(6):
+				// long lists on both sides of strategy-switching sizes (see c07.go)
+				longLens := []int{13, 33, 63, 64, 65, 66, 67, 129, 130}
+				for _, s := range newIntsFor("cmd") {
+					if v, err := strconv.Atoi(s); err == nil && v >= 4 && v <= 1500 {
+						longLens = append(longLens, v-1, v, v+1, v+2, v+3, 2*v+1)
+					}
+				}
+				n = longLens[r.Intn(len(longLens))]
 			case cmd == "sort":
 				n = r.Range(1, 5)
 			}
@@ -84,6 +94,9 @@ func checkC15(ctx *Ctx) {
 				}
 				if r.Chance(5) {
 					a = unicodeSpaces(r, a)
+				}
+				if r.Chance(6) {
+					a = nonASCIIInside(r, a)
 				}
 				av = append(av, a)
 			}
@@ -251,4 +264,29 @@ func unicodeSpaces(r *RNG, a string) string {
 		i := 1 + r.Intn(len(ts)-1)
 		return strings.Join(ts[:i], "") + sp + strings.Join(ts[i:], "")
 	}
+}
+
+// nonASCIIInside: a printable non-ASCII letter (or a rune that case-folds to an ASCII letter, or a
+// non-ASCII digit) in place of / next to one alphanumeric byte of a.  The permissive grammars
+// (alpine, alpm, debian, maven, rpm) accept such texts; quoting, lower-casing and byte-wise
+// scanners treat them differently from ASCII.
+func nonASCIIInside(r *RNG, a string) string {
+	u := r.Pick([]string{"é", "ü", "ß", "Ω", "漢", "😀", "\u212a", "\u017f", "İ", "٣", "３", "ǅ"})
+	var idx []int
+	for i := 0; i < len(a); i++ {
+		if tokClass(a[i]) != 2 {
+			idx = append(idx, i)
+		}
+	}
+	if len(idx) == 0 {
+		return a + u
+	}
+	i := idx[r.Intn(len(idx))]
+	switch r.Intn(3) {
+	case 0:
+		return a[:i] + u + a[i+1:]
+	case 1:
+		return a[:i] + u + a[i:]
+	}
+	return a + u
 }
